@@ -7,7 +7,7 @@ every subcommand that writes a VCF/BAM/TSV is run on the same generated input un
 values, thread counts and twice, and the outputs are compared record for record (command-line header / @PG CL
 removed; header definition lines compared as a multiset — their order is F6, an observation).
 """
-import collections, itertools, json, os, shutil
+import collections, contextlib, io, itertools, json, os, shutil
 
 import pysam
 
@@ -26,11 +26,16 @@ RULE = ("one evaluation = one (subcommand, input, variant) run compared with the
         "the same input; variant = hash seed / thread count / repetition. Non-trivial: the compared output holds at "
         "least one data record and the variant differs from the baseline in seed, threads or is a repetition; "
         "distinct = distinct (subcommand, variant, input digest). In-process: ReadSet.sort under permuted insertion "
-        "orders (non-trivial: >= 2 reads share a first position)")
+        "orders (non-trivial: >= 2 reads share a first position); readselection after ReadSet.sort under permuted insertion "
+        "orders (non-trivial: two reads share a first position and some read is rejected); phase/genotype on a BAM whose records "
+        "of one start position are permuted")
 MANIFEST = dict(
     category="other",
     text="partial Lean 4 theorems (read comparator is a total order and ReadSet::sort a function of the read set; "
          "polyphase block results re-sorted by block id and sorted(set) are independent of arrival/enumeration order) "
+         "; read selection after ReadSet::sort returns the same selection, for every resolution of its priority-queue ties, "
+         "whatever order the reads arrive in (selection_outcomes_order_independent; composed with the C07 model of "
+         "readselection), a tie witness and uniqueness of the outcome when no tie is decisive "
          "plus schedule/seed exploration: phase, phase --ped --use-ped-samples, genotype, polyphase, haplotag, unphase, "
          "stats, compare, split, haplotagphase re-run on identical generated inputs under different PYTHONHASHSEED "
          "values, --threads / --output-threads 1..4 and repeated; outputs compared record for record",
@@ -44,7 +49,12 @@ MANIFEST = dict(
 ASSUMPTIONS = ["std::hash<std::string> is deterministic across processes (libstdc++)",
                "the recorded command line (##commandline, @PG CL) is excluded as the property states; output paths differ "
                "between runs and appear only there",
-               "header definition lines are compared as a multiset (order = F6, observation)"]
+               "header definition lines are compared as a multiset (order = F6, observation)",
+               "BAM record-order runs: read names are unique (twin alignments get their own names); a different ORDER OF INPUT FILES "
+               "changes the source ids, which are part of ReadSet::sort's key: differences there are reported as observations",
+               "c16.select: std::hash of (name, source id) is replaced by the rank the implementation's own sort assigned"]
+
+K_F47 = "F47-compare-multiway-sample-column-set-order"
 
 SEEDS_QUICK = ["0", "1", "random", "0"]            # last one = repetition of the baseline configuration
 SEEDS_THOROUGH = ["0", "1", "2", "3", "7", "42", "1000", "4294967295", "random", "random", "0", "1"]
@@ -147,6 +157,20 @@ def prepare_inputs(ctx, case, d):
     P["phasedA_gz"] = P["phasedA"] + ".gz"
     pysam.tabix_compress(P["phasedA"], P["phasedA_gz"], force=True)
     pysam.tabix_index(P["phasedA_gz"], preset="vcf", force=True)
+    # three single-sample VCFs with different sample names (for compare --ignore-sample-name)
+    P["singles"] = []
+    lines = open(P["phasedA"]).read().splitlines()
+    hdr = next(l for l in lines if l.startswith("#CHROM")).split("\t")
+    for si in range(min(3, len(hdr) - 9)):
+        path = os.path.join(fd, f"single{si}.vcf")
+        with open(path, "w") as f:
+            for l in lines:
+                if l.startswith("##"):
+                    f.write(l + "\n")
+                else:
+                    c = l.split("\t")
+                    f.write("\t".join(c[:9] + [c[9 + si]]) + "\n")
+        P["singles"].append(path)
     P["tagged"] = os.path.join(fd, "tagged.bam")
     P["taglist"] = os.path.join(fd, "tags.tsv")
     must(["haplotag", P["phasedA_gz"], P["bam"], "-o", P["tagged"], "--reference", P["fa"], "--output-haplotag-list",
@@ -223,6 +247,11 @@ def subcommands(P, quick):
                 {"pairwise": (o + "/p.tsv", "text"), "multiway": (o + "/m.tsv", "text"), "bed": (o + "/e.bed", "text"),
                  "longest": (o + "/lb.tsv", "text"), "stdout": ("<stdout>", "text")})
 
+    def compare_ignore(o, t):
+        return (["compare", "--ignore-sample-name", "--tsv-pairwise", o + "/p.tsv", "--tsv-multiway", o + "/m.tsv",
+                 "--names", "a,b,c"] + P["singles"],
+                {"pairwise": (o + "/p.tsv", "text"), "multiway": (o + "/m.tsv", "text"), "stdout": ("<stdout>", "text")})
+
     def split(o, t):
         return (["split", "--output-h1", o + "/h1.bam", "--output-h2", o + "/h2.bam", "--output-untagged", o + "/u.bam",
                  "--read-lengths-histogram", o + "/hist.tsv", P["bam"], P["taglist"]],
@@ -247,6 +276,8 @@ def subcommands(P, quick):
     subs["unphase"] = (unphase, [None])
     subs["stats"] = (stats, [None])
     subs["compare"] = (compare, [None])
+    if len(P.get("singles", [])) == 3:
+        subs["compare-ignore-names"] = (compare_ignore, [None])
     subs["split"] = (split, [None])
     subs["haplotagphase"] = (haplotagphase, [None])
     return subs
@@ -280,6 +311,8 @@ def explore(ctx, case, only=None):
         P = prepare_inputs(ctx, case, d)
         seeds = SEEDS_QUICK if ctx.quick else SEEDS_THOROUGH
         digest = case.get("digest", "")
+        if not only or "bam-order" in only:
+            bam_order_check(ctx, case, P, d)
         for name, (builder, thread_opts) in subcommands(P, ctx.quick).items():
             if only and name not in only:
                 continue
@@ -319,8 +352,12 @@ def explore(ctx, case, only=None):
                                      key=f"{name}:{label}:missing")
                         continue
                     if bv[1] != vv[1]:
+                        key = f"{name}:{label}:records"
+                        if name == "compare-ignore-names" and label == "multiway" and len(bv[1]) == len(vv[1]) and all(
+                                x.split("\t")[1:] == y.split("\t")[1:] for x, y in zip(bv[1], vv[1])):
+                            key = K_F47      # only the sample column differs: "_".join(set(sample_names))
                         ctx.fail(f"{name}: {label} records differ between {base[0]} and {vdesc}: {first_diff(bv[1], vv[1])}",
-                                 sub_case, key=f"{name}:{label}:records")
+                                 sub_case, key=key)
                     elif bv[0] != vv[0]:
                         if collections.Counter(bv[0]) == collections.Counter(vv[0]):
                             ctx.observe(f"{name}: order of header lines of {label} depends on the run (F6); records identical")
@@ -386,6 +423,184 @@ def check_readsort(ctx, case):
     return results[0]
 
 
+
+# ------------------------------------------------------------------------------------------------
+# read selection after ReadSet.sort: a function of the SET of reads (Props.C16.selection_outcomes_order_independent)
+# ------------------------------------------------------------------------------------------------
+
+def selection_case(rng):
+    """a few reads over a handful of variant positions, several sharing their first position (ties of the comparator up to
+    std::hash) and several with equal scores (ties of the priority queue); unique (name, source id)"""
+    n = rng.randrange(2, 8)
+    grid = [10, 20, 30, 40, 50, 60]
+    reads, seen = [], set()
+    for i in range(n):
+        if reads and rng.random() < 0.3:
+            base = rng.choice(reads)        # a twin: same variants, another name
+            pos, qual = list(base["pos"]), list(base["qual"])
+        else:
+            a = rng.randrange(0, len(grid) - 1)
+            span = grid[a:a + rng.choice([2, 2, 3, 4])]
+            pos = [p for j, p in enumerate(span) if j in (0, len(span) - 1) or rng.random() < 0.7]
+            qual = [rng.choice([10, 30, 30, 30]) for _ in pos]
+        name = rng.choice(["r", "read", "q"]) + str(i)
+        src = rng.randrange(0, 2)
+        if (name, src) in seen:
+            continue
+        seen.add((name, src))
+        reads.append({"name": name, "source": src, "pos": pos, "qual": qual})
+    if rng.random() < 0.05:
+        reads[0]["pos"], reads[0]["qual"] = reads[0]["pos"][:1], reads[0]["qual"][:1]      # ValueError: a single variant
+    pref = rng.choice([None, None, [0], [1]])
+    return {"kind": "selection", "reads": reads, "k": rng.choice([1, 1, 2, 3]), "preferred": pref,
+            "orders": [rng.sample(range(len(reads)), len(reads)) for _ in range(3)]}
+
+
+def check_selection(ctx, case):
+    """returns (request for c16.select, what the implementation did) or None"""
+    from whatshap.core import Read, ReadSet
+    from whatshap.readselect import readselection
+    reads = case["reads"]
+    results = []
+    for order in [list(range(len(reads)))] + case["orders"]:
+        rs = ReadSet()
+        for i in order:
+            r = reads[i]
+            rd = Read(r["name"], 60, r["source"])
+            for p_, q in zip(r["pos"], r["qual"]):
+                rd.add_variant(p_, 0, q)
+            rs.add(rd)
+        rs.sort()
+        names = [(rd.name, rd.source_id) for rd in rs]
+        try:
+            with contextlib.redirect_stdout(io.StringIO()):      # readselection prints the offending read
+                sel = readselection(rs, case["k"], set(case["preferred"]) if case["preferred"] is not None else None)
+            out = sorted(names[i] for i in sel)
+        except ValueError:
+            out = "ValueError"
+        results.append((names, out))
+    ctx.evaluated()
+    ctx.dist("selection_reads", len(reads))
+    if any(r != results[0] for r in results):
+        other = [r for r in results if r != results[0]][0]
+        ctx.fail(f"read selection after ReadSet.sort depends on the order the reads were added: {results[0][1]} vs {other[1]} "
+                 f"(sorted read sets {results[0][0]} / {other[0]})", case, key="selection-insertion-order")
+    names, out = results[0]
+    firsts = [r["pos"][0] for r in reads]
+    if len(firsts) != len(set(firsts)) and out != "ValueError" and len(out) < len(reads):
+        ctx.nontrivial("selection" + json.dumps(case, sort_keys=True))
+    # the model: the same reads in the last insertion order; std::hash is replaced by the rank the implementation's own
+    # sort gave to (name, source id)
+    rank = {ns: i for i, ns in enumerate(names)}
+    order = case["orders"][-1] if case["orders"] else list(range(len(reads)))
+    req = {"op": "c16.select", "k": case["k"], "bridging": True,
+           "reads": [[1, reads[i]["pos"][0], rank[(reads[i]["name"], reads[i]["source"])], [ord(ch) for ch in reads[i]["name"]],
+                      reads[i]["source"], reads[i]["pos"], reads[i]["qual"],
+                      int(case["preferred"] is not None and reads[i]["source"] in case["preferred"])] for i in order]}
+    impl = "ValueError" if out == "ValueError" else sorted(rank[x] for x in out)
+    return req, [[n, s_] for n, s_ in names], impl
+
+
+def bam_order_inputs(P, d, seed):
+    """the family BAM with twin alignments (same start, other name) and (a) the records of every start position in
+    another order, (b) split into two files.  Returns dict of paths, whether read names are unique, #positions shared"""
+    import random
+    rng = random.Random(seed)
+    src = pysam.AlignmentFile(P["bam"])
+    header = src.header
+    recs = []
+    for r in src:
+        recs.append(r)
+        if not r.is_unmapped and rng.random() < 0.35:
+            dct = r.to_dict()
+            dct["name"] = r.query_name + "_t"
+            recs.append(pysam.AlignedSegment.from_dict(dct, header))
+    src.close()
+    groups = collections.OrderedDict()
+    for r in recs:
+        groups.setdefault((r.reference_id, r.reference_start), []).append(r)
+    perm = []
+    for g in groups.values():
+        g2 = list(g)
+        if len(g2) > 1:
+            while g2 == g:
+                rng.shuffle(g2)
+        perm += g2
+    out = {}
+    for label, rr in (("twin", recs), ("perm", perm), ("a", recs[0::2]), ("b", recs[1::2])):
+        path = os.path.join(d, f"order_{label}.bam")
+        with pysam.AlignmentFile(path, "wb", header=header) as f:
+            for r in rr:
+                f.write(r)
+        pysam.index(path)
+        out[label] = path
+    keys = [(r.query_name, r.is_read1, r.is_read2, r.is_supplementary, r.is_secondary) for r in recs]
+    return out, len(keys) == len(set(keys)) and len({r.query_name for r in recs}) == len(recs), sum(len(g) > 1 for g in groups.values())
+
+
+def bam_order_check(ctx, case, P, d):
+    """metamorphic: the same alignments delivered in another order (records of one start position permuted; split over two
+    files given in either order).  `ReadSet.sort` canonicalises the read order when (name, source id) is unique, so the
+    record order must not matter; the file order changes the source ids (part of the sort key) and is reported only."""
+    B, unique, shared = bam_order_inputs(P, d, int(case.get("digest") or 0))
+    ctx.dist("bam_order_shared_starts", min(shared, 20))
+
+    def run(tag, sub, bams):
+        o = os.path.join(d, "run_order_" + tag)
+        os.makedirs(o, exist_ok=True)
+        if sub == "phase":
+            # a low cap: the read selection has to drop reads, twins tie in its priority queue
+            args = ["phase", P["vcf"]] + bams + ["-o", o + "/out.vcf", "--reference", P["fa"], "--output-read-list", o + "/reads.tsv",
+                    "--internal-downsampling", "4"]
+            outs = {"vcf": (o + "/out.vcf", "vcf"), "readlist": (o + "/reads.tsv", "text")}
+        else:
+            args = ["genotype", P["vcf"]] + bams + ["-o", o + "/out.vcf", "--reference", P["fa"]]
+            outs = {"vcf": (o + "/out.vcf", "vcf")}
+        rc, so, se, _ = sim.whatshap(args, ctx.overlay, env_extra={"PYTHONHASHSEED": "0"}, timeout=900)
+        views = {k: (load(p_, kind) if rc == 0 and os.path.exists(p_) else None) for k, (p_, kind) in outs.items()}
+        shutil.rmtree(o, ignore_errors=True)
+        return rc, (se.strip().splitlines() or [""])[-1][:300], views
+
+    for sub in ("phase", "genotype"):
+        rc0, err0, base = run(sub + "_twin", sub, [B["twin"]])
+        if rc0 != 0:
+            ctx.observe(f"{sub}: baseline run on the BAM with twin reads failed: {err0}")
+            continue
+        rc1, err1, perm = run(sub + "_perm", sub, [B["perm"]])
+        ctx.evaluated()
+        ctx.dist("subcommand", sub + "-bam-record-order")
+        sub_case = dict(case, only=["bam-order"])
+        if rc1 != 0:
+            ctx.fail(f"{sub}: fails when the BAM records of one start position come in another order ({err1})", sub_case,
+                     key=f"{sub}:bam-record-order:crash")
+        else:
+            for label, bv in base.items():
+                vv = perm.get(label)
+                if bv is None or vv is None or bv[1] != vv[1]:
+                    msg = (f"{sub}: {label} records differ when the BAM records of one start position come in another order: "
+                           f"{first_diff(bv[1], vv[1]) if bv and vv else 'missing output'}")
+                    if unique:
+                        ctx.fail(msg, sub_case, key=f"{sub}:bam-record-order:{label}")
+                    else:
+                        ctx.observe(msg + " (read names not unique)")
+            if shared and base.get("vcf") and base["vcf"][1]:
+                ctx.nontrivial(f"{sub}-bam-order|{case.get('digest', '')}")
+        # input file order: source ids (part of the read order) change with it; reported, not demanded
+        rca, erra, ab = run(sub + "_ab", sub, [B["a"], B["b"]])
+        rcb, errb, ba = run(sub + "_ba", sub, [B["b"], B["a"]])
+        ctx.evaluated()
+        ctx.dist("subcommand", sub + "-bam-file-order")
+        if rca != 0 or rcb != 0:
+            if (rca == 0) != (rcb == 0):
+                ctx.fail(f"{sub}: succeeds with the two BAM files in one order and fails in the other ({erra or errb})", sub_case,
+                         key=f"{sub}:bam-file-order:crash")
+            continue
+        if any((ab[l] or [None, None])[1] != (ba[l] or [None, None])[1] for l in ab if l != "readlist"):
+            ctx.observe(f"{sub}: the result depends on the order in which two BAM files are given (source ids enter "
+                        "ReadSet.sort's key and thereby the tie-breaking of the read selection)")
+        else:
+            ctx.observe(f"{sub}: same records with two BAM files given in either order")
+
 # ------------------------------------------------------------------------------------------------
 
 def gen_input(rng, quick, scale=1):
@@ -397,12 +612,27 @@ def gen_input(rng, quick, scale=1):
     return {"kind": "explore", "input": inp, "digest": str(rng.randrange(10**9))}
 
 
+def run_selection_batch(ctx, cases):
+    batch = [(c, check_selection(ctx, c)) for c in cases]
+    answers = ctx.model.ask_many([b[1][0] for b in batch])
+    for (case, (req, names, impl)), ans in zip(batch, answers):
+        model_sorted = [["".join(chr(c) for c in name), src] for name, src in ans["sorted"]]
+        if model_sorted != names:
+            ctx.disagree("c16.select:sorted", case, names, model_sorted)
+        elif impl not in ans["outcomes"]:
+            ctx.disagree("c16.select", case, impl, ans["outcomes"])
+        else:
+            ctx.dist("selection_admissible_outcomes", min(len(ans["outcomes"]), 5))
+
+
 def run(ctx):
     rng = ctx.rng
     if ctx.replay:
         case = json.load(open(ctx.replay))["case"]
         if case.get("kind") == "readsort":
             check_readsort(ctx, case)
+        elif case.get("kind") == "selection":
+            run_selection_batch(ctx, [case])
         else:
             explore(ctx, case, only=case.get("only"))
         shutil.rmtree(ctx.workdir(), ignore_errors=True)
@@ -410,6 +640,8 @@ def run(ctx):
     for _, c in ctx.corpus():
         if c.get("kind") == "readsort":
             check_readsort(ctx, c)
+        elif c.get("kind") == "selection":
+            run_selection_batch(ctx, [c])
         else:
             explore(ctx, c, only=c.get("only"))
     # in-process
@@ -429,6 +661,7 @@ def run(ctx):
             model = [["".join(chr(c) for c in name), src] for name, src in ans]
             if model != impl:
                 ctx.disagree("c16.sort", case, impl, model)
+    run_selection_batch(ctx, [selection_case(rng) for _ in range((300 if ctx.quick else 3000) * ctx.scale)])
     # exploration
     for i in range((1 if ctx.quick else 3) * ctx.scale):
         explore(ctx, gen_input(rng, ctx.quick, ctx.scale))
